@@ -2097,9 +2097,11 @@ class HelperInliner:
         names: Dict[str, str] = {}
         direct: Dict[str, ast.expr] = {}
         for p, v in subst.items():
-            if p in assigned or not is_pure(v):
-                # the parameter is rebound in the callee, or the argument is not a pure expression:
-                # bind it to a local once (evaluation order of arguments is kept)
+            heap_read = any(isinstance(x_, (ast.Attribute, ast.Subscript)) for x_ in ast.walk(v)) and not isinstance(v, ast.Lambda)
+            if p in assigned or not is_pure(v) or heap_read:
+                # the parameter is rebound in the callee, or the argument is not a pure expression, or it reads the heap
+                # (the callee may change what it reads before it uses the parameter): bind it to a local once (evaluation
+                # order of arguments is kept); alias inlining (C5) moves it on where nothing in between can invalidate it
                 local = p if (p not in caller_names or (isinstance(v, ast.Name) and v.id == p)) else p + tag
                 if local != p and self._dead_after(fn, call, p):
                     # the caller's own `p` is not read after the call (and the call is not in a loop):
@@ -2789,8 +2791,12 @@ def may_write_table(modules: Dict[str, ast.Module]) -> Dict[str, Set[str]]:
             for n in ast.walk(fn):
                 if isinstance(n, ast.Attribute) and isinstance(n.ctx, (ast.Store, ast.Del)):
                     w.add(n.attr)
+                elif isinstance(n, ast.Subscript) and isinstance(n.ctx, (ast.Store, ast.Del)):
+                    w.add("<sub>")  # stores into / deletes from some container
                 elif isinstance(n, ast.Call):
                     if isinstance(n.func, ast.Attribute):
+                        if n.func.attr in _CONTAINER_MUTATORS:
+                            w.add("<sub>")
                         c.add(n.func.attr)
                     elif isinstance(n.func, ast.Name):
                         c.add(n.func.id)
@@ -3068,7 +3074,7 @@ def canonicalise(modules: Dict[str, ast.Module], known_funcs: Optional[Set[str]]
                     hi.changed = hi.changed or before
     # new helpers whose every call was inlined are dead code now: drop them, so that no rule analyses the
     # extracted fragment out of its context (a helper that is still referenced anywhere stays)
-    if enabled("C6") and known_funcs is not None:
+    if enabled("C6") and known_funcs is not None and not os.environ.get("SA_KEEP_HELPERS"):
         new_defs = []
         for mod, lst in funcs.items():
             for fn, cls, q in lst:
